@@ -18,7 +18,8 @@ def instances(tier):
 TEXT = ("Inductive bounded model checking on the real pixman-image.c: from an ARBITRARY clean image state (every property field symbolic, "
         "dirty == FALSE) each of the 12 property setters with symbolic arguments either marks the image dirty or leaves every "
         "rendering-relevant property unchanged (so no call history can leave stale derived state), and _pixman_image_validate recomputes "
-        "flags / extended format code from the properties alone (garbage in the derived fields does not survive).")
+        "flags / extended format code from the properties alone (garbage in the derived fields does not survive); the set_alpha_map step also re-establishes the bookkeeping invariant "
+        "alpha_count / ref_count of every map == number of users (a stale count would make a later setter a silent no-op).")
 NOTE = ("Image built by hand (BITS, a8r8g8b8 2x2); clip regions single rectangles; the fast-path cache lemma (L3) and the end-to-end "
         "sequence comparison are not built; gradient sentinel refresh is checked under C13 (gradient_property_changed is called by the harness there).")
 RULE = "C14 instance = one setter (inductive step) | validate lemma."
